@@ -635,6 +635,133 @@ theorem traversal_process_renders_every_route (cfg : TraversalCfg) (res : Search
     obtain ⟨outs, hm, ho⟩ := c f hf
     exact ⟨outs, ho, mapExcept_ok_length _ _ _ hm, fun i ht hi => mapExcept_ok_get _ _ _ hm i ht hi⟩
 
+/-- for **any** list of output plugins: whatever a (non-error) response carries under `route` was rendered by
+one of the configured traversal plugins from the returned routes — one path per route, in order, each the
+format's rendering of that route over that plugin's geometry table -/
+theorem response_route_is_rendering (req : Json) (res : SearchResult) (plugins : List Plugin) (resp : Resp)
+    (h : applyOutputProcessing req (some res) plugins = .ok resp) (sh : Shape RouteOut) (hs : resp.route = some sh) :
+    ∃ cfg f, Plugin.traversal cfg ∈ plugins ∧ cfg.route = some f ∧ sh.toList.length = res.routes.length ∧
+      ∀ (i : Nat) (hr : i < res.routes.length) (ho : i < sh.toList.length),
+        res.routes[i] ≠ [] ∧ generateRouteOutput cfg.geoms f res.routes[i] = .ok sh.toList[i] := by
+  let P : Resp → Prop := fun r => ∀ sh, r.route = some sh →
+    ∃ cfg f outs, Plugin.traversal cfg ∈ plugins ∧ cfg.route = some f ∧
+      mapExcept (constructRouteOutput cfg.geoms f) res.routes = .ok outs ∧ sh = shape outs
+  have hstep : ∀ p ∈ plugins, ∀ r r', P r → pluginStep req res p r = .ok r' → P r' := by
+    intro p hp r r' hP hq sh' hs'
+    cases p with
+    | traversal cfg =>
+      obtain ⟨a, b, _⟩ := traversalProcess_route cfg res r r' hq
+      cases hr : cfg.route with
+      | none => rw [b hr] at hs'; exact hP sh' hs'
+      | some f =>
+        obtain ⟨outs, hm, ho⟩ := a f hr
+        rw [ho] at hs'
+        injection hs' with hs'
+        exact ⟨cfg, f, outs, hp, hr, hm, hs'.symm⟩
+    | summary =>
+      rw [pluginStep_summary req res r r' hq] at hs'
+      exact hP sh' hs'
+    | uuid table =>
+      obtain ⟨ou, du, _, hr'⟩ := pluginStep_uuid req res table r r' hq
+      rw [hr'] at hs'
+      exact hP sh' hs'
+  simp only [applyOutputProcessing] at h
+  obtain ⟨cfg, f, outs, hmem, hf, hm, rfl⟩ :=
+    runPlugins_inv req res P plugins hstep plugins (fun _ hp => hp) {} resp (by intro sh' h'; cases h') h sh hs
+  refine ⟨cfg, f, hmem, hf, ?_, ?_⟩
+  · rw [shape_loses_nothing]; exact mapExcept_ok_length _ _ _ hm
+  · intro i hr ho
+    simp only [shape_loses_nothing] at ho ⊢
+    have hc := mapExcept_ok_get _ _ _ hm i hr ho
+    unfold constructRouteOutput at hc
+    cases hl : (res.routes[i]).getLast? with
+    | none => simp [hl] at hc
+    | some e =>
+      simp only [hl] at hc
+      constructor
+      · intro hemp; rw [hemp] at hl; simp at hl
+      · cases hg : generateRouteOutput cfg.geoms f res.routes[i] with
+        | error x => simp [hg] at hc
+        | ok o => simp only [hg] at hc; exact hc
+
+/-- the same for `tree`: one rendered tree per returned tree -/
+theorem response_tree_is_rendering (req : Json) (res : SearchResult) (plugins : List Plugin) (resp : Resp)
+    (h : applyOutputProcessing req (some res) plugins = .ok resp) (sh : Shape TreeOut) (hs : resp.tree = some sh) :
+    ∃ cfg f, Plugin.traversal cfg ∈ plugins ∧ cfg.tree = some f ∧ sh.toList.length = res.trees.length ∧
+      ∀ (i : Nat) (ht : i < res.trees.length) (ho : i < sh.toList.length),
+        generateTreeOutput cfg.geoms f res.trees[i] = .ok sh.toList[i] := by
+  let P : Resp → Prop := fun r => ∀ sh, r.tree = some sh →
+    ∃ cfg f outs, Plugin.traversal cfg ∈ plugins ∧ cfg.tree = some f ∧
+      mapExcept (generateTreeOutput cfg.geoms f) res.trees = .ok outs ∧ sh = shape outs
+  have hstep : ∀ p ∈ plugins, ∀ r r', P r → pluginStep req res p r = .ok r' → P r' := by
+    intro p hp r r' hP hq sh' hs'
+    cases p with
+    | traversal cfg =>
+      obtain ⟨_, _, c, d, _⟩ := traversalProcess_route cfg res r r' hq
+      cases hr : cfg.tree with
+      | none => rw [d hr] at hs'; exact hP sh' hs'
+      | some f =>
+        obtain ⟨outs, hm, ho⟩ := c f hr
+        rw [ho] at hs'
+        injection hs' with hs'
+        exact ⟨cfg, f, outs, hp, hr, hm, hs'.symm⟩
+    | summary =>
+      rw [pluginStep_summary req res r r' hq] at hs'
+      exact hP sh' hs'
+    | uuid table =>
+      obtain ⟨ou, du, _, hr'⟩ := pluginStep_uuid req res table r r' hq
+      rw [hr'] at hs'
+      exact hP sh' hs'
+  simp only [applyOutputProcessing] at h
+  obtain ⟨cfg, f, outs, hmem, hf, hm, rfl⟩ :=
+    runPlugins_inv req res P plugins hstep plugins (fun _ hp => hp) {} resp (by intro sh' h'; cases h') h sh hs
+  refine ⟨cfg, f, hmem, hf, ?_, ?_⟩
+  · rw [shape_loses_nothing]; exact mapExcept_ok_length _ _ _ hm
+  · intro i ht ho
+    simp only [shape_loses_nothing] at ho ⊢
+    exact mapExcept_ok_get _ _ _ hm i ht ho
+
+/-- for any list of output plugins: identifiers in a response are `table[origin_vertex]` and
+`table[destination_vertex]` of the request, for the table of one of the configured uuid plugins; counts are the
+sizes of the returned routes and trees -/
+theorem response_ids_and_counts (req : Json) (res : SearchResult) (plugins : List Plugin) (resp : Resp)
+    (h : applyOutputProcessing req (some res) plugins = .ok resp) :
+    (∀ s, resp.originUuid = some s → ∃ table o d, Plugin.uuid table ∈ plugins ∧
+        getOdVertexIds (.obj [("request", req)]) = .ok (o, d) ∧ table o = some s) ∧
+    (∀ s, resp.destinationUuid = some s → ∃ table o d, Plugin.uuid table ∈ plugins ∧
+        getOdVertexIds (.obj [("request", req)]) = .ok (o, d) ∧ table d = some s) ∧
+    (∀ n, resp.routeEdges = some n → n = (res.routes.map List.length).sum) ∧
+    (∀ n, resp.treeSizeCount = some n → n = (res.trees.map List.length).sum) := by
+  let P : Resp → Prop := fun r =>
+    (∀ s, r.originUuid = some s → ∃ table o d, Plugin.uuid table ∈ plugins ∧
+        getOdVertexIds (.obj [("request", req)]) = .ok (o, d) ∧ table o = some s) ∧
+    (∀ s, r.destinationUuid = some s → ∃ table o d, Plugin.uuid table ∈ plugins ∧
+        getOdVertexIds (.obj [("request", req)]) = .ok (o, d) ∧ table d = some s) ∧
+    (∀ n, r.routeEdges = some n → n = (res.routes.map List.length).sum) ∧
+    (∀ n, r.treeSizeCount = some n → n = (res.trees.map List.length).sum)
+  have hstep : ∀ p ∈ plugins, ∀ r r', P r → pluginStep req res p r = .ok r' → P r' := by
+    intro p hp r r' hP hq
+    obtain ⟨p1, p2, p3, p4⟩ := hP
+    cases p with
+    | traversal cfg =>
+      obtain ⟨_, _, _, _, e1, e2, e3, e4⟩ := traversalProcess_route cfg res r r' hq
+      exact ⟨by rw [e3]; exact p1, by rw [e4]; exact p2, by rw [e1]; exact p3, by rw [e2]; exact p4⟩
+    | summary =>
+      rw [pluginStep_summary req res r r' hq]
+      refine ⟨p1, p2, ?_, ?_⟩
+      · intro n hn; simp only [summaryProcess, Option.some.injEq] at hn; exact hn.symm
+      · intro n hn; simp only [summaryProcess, Option.some.injEq] at hn; exact hn.symm
+    | uuid table =>
+      obtain ⟨ou, du, hl, hr'⟩ := pluginStep_uuid req res table r r' hq
+      obtain ⟨o, d, hg, ho, hd⟩ := uuidLookup_ok table _ ou du hl
+      rw [hr']
+      refine ⟨?_, ?_, p3, p4⟩
+      · intro s hs; simp only [Option.some.injEq] at hs; subst hs; exact ⟨table, o, d, hp, hg, ho⟩
+      · intro s hs; simp only [Option.some.injEq] at hs; subst hs; exact ⟨table, o, d, hp, hg, hd⟩
+  simp only [applyOutputProcessing] at h
+  exact runPlugins_inv req res P plugins hstep plugins (fun _ hp => hp) {} resp
+    ⟨(by intro s h'; cases h'), (by intro s h'; cases h'), (by intro n h'; cases h'), (by intro n h'; cases h')⟩ h
+
 /-- a missing geometry anywhere in a returned route (geometry format configured) makes the whole response an
 error response, wherever the traversal plugin sits among the output plugins -/
 theorem response_error_on_missing_geometry (req : Json) (res : SearchResult) (plugins : List Plugin)
